@@ -2,6 +2,8 @@
 package types
 
 import (
+	"encoding/hex"
+
 	sdk "github.com/pokt-network/pocket-core/types"
 	v "github.com/pokt-network/pocket-core/verifrt"
 )
@@ -32,8 +34,18 @@ func VerifC34() {
 	var maxRelays [2]sdk.BigInt
 	for _, t := range sched {
 		if !validated[t] {
+			first := !validated[0] && !validated[1]
 			m, err := r[t].Validate(ctx, w.k, w.k, w.k, w.hb, 5, w.node)
 			validated[t] = true
+			if first {
+				// (non-vacuity and completeness: on the still empty evidence a relay whose two
+				// signatures verify is served)
+				rp := r[t].Proof
+				raw := func(h string) []byte { b, _ := hex.DecodeString(h); return b }
+				ok := v.And(v.SigVerdict(raw(rp.Token.ApplicationPublicKey), rp.Token.Hash(), raw(rp.Token.ApplicationSignature)),
+					v.SigVerdict(raw(rp.Token.ClientPublicKey), rp.Hash(), raw(rp.Signature)))
+				v.Assert(v.Implies(ok, err == nil), "authorised-relay-on-empty-evidence-is-served")
+			}
 			if err == nil {
 				maxRelays[t] = m
 				stored[t] = true // the store step is pending
